@@ -244,6 +244,18 @@ func (matrix *DenseFloat32Matrix) Tip() {
   matrix.rowMax, matrix.colMax = matrix.colMax, matrix.rowMax
 }
 func (matrix *DenseFloat32Matrix) AsVector() Vector {
+  if matrix.cols < matrix.colMax || matrix.rows < matrix.rowMax {
+    // this is a view on a larger matrix, copy the elements
+    // that belong to it
+    n, m := matrix.Dims()
+    v := make([]float32, n*m)
+    for i := 0; i < n; i++ {
+      for j := 0; j < m; j++ {
+        v[i*m + j] = matrix.values[matrix.index(i, j)]
+      }
+    }
+    return DenseFloat32Vector(v)
+  }
   return DenseFloat32Vector(matrix.values)
 }
 func (matrix *DenseFloat32Matrix) storageLocation() uintptr {
@@ -333,7 +345,7 @@ func (matrix *DenseFloat32Matrix) IsSymmetric(epsilon float64) bool {
   return true
 }
 func (matrix *DenseFloat32Matrix) AsConstVector() ConstVector {
-  return DenseFloat32Vector(matrix.values)
+  return matrix.AsVector()
 }
 /* implement ScalarContainer
  * -------------------------------------------------------------------------- */
